@@ -4,7 +4,7 @@ OPS = ["q120_b_from_znx64_simple", "q120_c_from_znx64_simple", "q120_c_from_b_si
        "q120_add_ccc_simple", "q120_b_to_znx128_simple", "int64->b->int128", "b(V1)+b(V2)->int128"]
 ELLC = ["ell:0", "ell:1", "ell:2", "ell:10000", "ell:mid", "ell:small", "ell:near-max"]
 # cases per (kernel, ell class): the long vectors dominate the cost
-ELL_COUNT = {0: 8000, 1: 8000, 2: 12000, 3: 1600, 4: 3000, 5: 20000, 6: 1200}
+ELL_COUNT = {0: 12000, 1: 12000, 2: 18000, 3: 2400, 4: 4500, 5: 30000, 6: 1800}
 
 
 def _jobs(tier):
@@ -15,13 +15,13 @@ def _jobs(tier):
             jobs.append(dict(sub="product", count=ELL_COUNT[ellc] * mult, fix=dict(kern=kern, ellc=ellc),
                              split=(2 if ellc in (3, 4, 6) and kern >= 3 else 1)))
     for op in range(8):
-        jobs.append(dict(sub="conv", count=12000 * mult, fix=dict(op=op, nn=(0, 64))))
-        jobs.append(dict(sub="conv", count=2000 * mult, fix=dict(op=op, nn=(65, 4096))))
+        jobs.append(dict(sub="conv", count=18000 * mult, fix=dict(op=op, nn=(0, 64))))
+        jobs.append(dict(sub="conv", count=3000 * mult, fix=dict(op=op, nn=(65, 4096))))
     # the centred lift right at +-(Q-1)/2, every lane-representative family
     for lfam in range(4):
-        jobs.append(dict(sub="conv", count=5000 * mult, fix=dict(op=5, vfam=0, lfam=lfam, nn=(1, 32))))
-    jobs.append(dict(sub="blocks", count=10000 * mult, fix=dict(nnh=(1, 64))))
-    jobs.append(dict(sub="blocks", count=1000 * mult, fix=dict(nnh=(65, 2048))))
+        jobs.append(dict(sub="conv", count=7500 * mult, fix=dict(op=5, vfam=0, lfam=lfam, nn=(1, 32))))
+    jobs.append(dict(sub="blocks", count=15000 * mult, fix=dict(nnh=(1, 64))))
+    jobs.append(dict(sub="blocks", count=1500 * mult, fix=dict(nnh=(65, 2048))))
     return jobs
 
 
